@@ -1,7 +1,8 @@
 (* C10 -- Unit catchments partition the fine grid by nearest downstream outlet pixel. *)
 From Coq Require Import List Arith ZArith Bool.
 Import ListNotations.
-From PF Require Import Arr Net SweepDown Fill FillSpec Ops Ucat UcatSpec Trace TraceSpec.
+From PF Require Import Arr Net SweepDown Fill FillSpec Ops Ucat UcatSpec Trace TraceSpec GenUcatEq.
+From PFG Require Import GenLoops.
 Local Open Scope Z_scope.
 
 (* the seeds: position + 1 at an outlet pixel listed once, 0 elsewhere *)
@@ -61,3 +62,9 @@ Print Assumptions seg_spec.
 Example ucat_example : topo [0;0;1;2]%nat [0;1;2;3]%nat /\
   ucat_area [0;0;1;2]%nat [0;2]%nat [0;1;2;3]%nat [1;1;1;1] = ([1;1;2;2], [2;2]).
 Proof. split; [apply check_topo_sound; vm_compute; reflexivity|vm_compute; reflexivity]. Qed.
+
+(* TIE BY TRANSLATION: subgrid.ucat_area (two loops: seeding at the outlet pixels, sweep over the cell order) regenerated
+   from the source on every run IS the model above *)
+Theorem gen_ucat_area_eq : forall outs ds sq area, gen_ucat_area outs ds sq area = ucat_area ds outs sq area.
+Proof. exact GenUcatEq.gen_ucat_area_eq. Qed.
+Print Assumptions gen_ucat_area_eq.
